@@ -501,8 +501,8 @@ class DataFrameInternal:
     def withColumnRenamed(self, existing, new):
         def mapper(row):
             keyed_values = [
-                (new, row[col]) if col == existing else (col, row[col])
-                for col in row.__fields__
+                (new if col == existing else col, value)
+                for col, value in zip(row.__fields__, row)
             ]
             return row_from_keyed_values(keyed_values)
 
@@ -518,10 +518,7 @@ class DataFrameInternal:
 
     def toDF(self, new_names):
         def mapper(row):
-            keyed_values = [
-                (new_name, row[old])
-                for new_name, old in zip(new_names, row.__fields__)
-            ]
+            keyed_values = list(zip(new_names, row))
             return row_from_keyed_values(keyed_values)
 
         new_schema = StructType([
